@@ -76,6 +76,9 @@ def run_entry(run, prog, entry, stub_map, loop_bound=8, max_paths=5000, timeout_
         run.obligation('%s: symbolic execution completes' % (label or entry), 'unsupported', 'unsat', time.time() - t)
         return [], ex
     secs = time.time() - t
+    if ex.incomplete:
+        run.inconclusive.append('%s: exploration incomplete: %s' % (entry, ex.incomplete))
+        run.obligation('%s: symbolic execution completes' % (label or entry), 'incomplete', 'unsat', secs)
     st = collections.Counter(r.status for r in res)
     reached = collections.Counter()
     for r in res:
